@@ -611,7 +611,7 @@ def storage_fns(const_visit=True):
     types = [(r'^nano::datasource_t$', 'struct nv_dsrc'), (r'^nano::feature_t$|value_type$', 'struct nv_feat'),
              (r'^nano::features_t$|^std::vector<nano::feature_t>$', 'struct nv_features'),
              (r'^nano::feature_type$', 'int32_t'), (r'^std::unordered_map<nano::feature_type, long>$', 'struct nv_counts'),
-             (r'^std::pair<long, long>$|^pair<typename __decay_and_strip< ?(const )?long ?&>::__type, typename __decay_and_strip< ?(const )?long ?&>::__type>$', 'struct nv_pair_i64'), (r'^nano::tensor_range_t$', 'struct nv_range'),
+             (r'^std::pair<long, long>$|^pair<typename __decay_and_strip< ?(const )?long ?&?>::__type, typename __decay_and_strip< ?(const )?long ?&?>::__type>$', 'struct nv_pair_i64'), (r'^nano::tensor_range_t$', 'struct nv_range'),
              (r'^nano::tensor3d_dims_t$|^std::array<long, 3>$', 'struct nv_dims3'),
              (r'^nano::mask_c?map_t$|tensor_t<nano::tensor_c?m?array_storage_t, unsigned char, 1>', 'struct nv_mask1'),
              (r'^\(lambda at .*datasource\.cpp:\d+:\d+\)$', 'struct nv_visitor')]
@@ -709,15 +709,22 @@ def build(tier):
             'range guards: dataset_t::check(feature) throws iff the index is outside [0, features()); byfeature rejects an invalid index before indexing and returns m_generators[mapping(feature, 0)] in bounds; check(samples) returning normally => every listed index >= 0 [proved] and < samples() [REFUTED on the unchanged library: `>` instead of `>=`]',
             'guarded read chain: real check(samples) + real iterator + real getbit: the sample handed to the storage readers is in [0, N) and every read is inside its buffer [REFUTED on the unchanged library for the index N]',
             'dataset_t::select(samples, feature, buffer) x4: the reader (generator_t::select) is reached only after the sample guard ran on this very list without throwing and with a valid feature index, on the mapped generator / local feature, one row per listed sample; an invalid feature index throws and nothing is read',
-            'one-hot flatten (elemwise_generator_t<sclass_identity_t>::flatten, 8-bit labels) with the real operator*, iterator, getbit and label operator: every cell of the processed rows inside [column, column+colsize) is +1 / -1 by the documented C-1 column encoding or NaN when the value is missing, every other cell is untouched, every row / segment / one-hot index is inside the buffer'],
+            'one-hot flatten (elemwise_generator_t<sclass_identity_t>::flatten, 8-bit labels) with the real operator*, iterator, getbit and label operator: every cell of the processed rows inside [column, column+colsize) is +1 / -1 by the documented C-1 column encoding or NaN when the value is missing, every other cell is untouched, every row / segment / one-hot index is inside the buffer',
+            'typed value pools: for every feature list (any length, kinds, class counts -- every storage-width boundary --, dimensions) the real visit() (reader and writer overload) slices the pool whose type the real resize() recorded for the feature, inside the rows resize() gave that pool; two features never share rows of a pool; the mask has one row per feature and (samples+7)/8 bytes; no width rule is written in the spec (the two real dispatches are compared); datasource_storage_access*: dsrc_resize.loop_invariant_step.3/.4 = clause (c)+(a) at the observed features, step.5 = clause (b); datasource_storage_single*: the same clauses as named assertions for one-feature data sources',
+            'pairwise product: the operator of pairwise_product_t::process equals (scalar_t)v1 * (scalar_t)v2 with IEEE semantics for all 10 x 10 storage-type instantiations; pairwise select_scalar / flatten (int32 x uint32): a cell is that product of the two stored sources of the sample behind the row when both are given, NaN otherwise, every other cell untouched, all reads in bounds',
+            'drop / shuffle protocol: transition contracts of drop / shuffle / undrop / unshuffle over every reachable state, observed through the real should_drop / shuffled readers (hence for every call sequence, by induction); generator_t::select x4: a dropped feature is filled with NaN / -1 and its values are not computed, otherwise do_select runs on exactly these arguments'],
         'not_decided': [
             'agreement of the per-feature and flattened views for the other 11 feature kinds / storage widths, product and gradient generators, targets; the column-to-feature bookkeeping built by dataset_t::update() (its invariant is assumed at the queried row)',
-            'drop / shuffle / undo histories (generator_t state), the thread-parallel dataset_t::flatten / targets bodies',
-            'datasource_t::visit (range -> slice -> reshape arithmetic) and datasource_t::set',
+            'the thread-parallel dataset_t::flatten / targets bodies; generator_t::shuffled(feature, samples) (the loop that applies the permutation) and flatten_dropped',
+            'the reshape arithmetic inside datasource_t::visit (only pool and row range are observed) and the value conversion in datasource_t::set / feature_storage_t',
+            'pairwise loops for the other 99 storage-type pairs and the sclass / mclass / struct pairwise generators (same template text, other instantiations)',
             'make_mask for rank > 1: the index of std::get<trank-1> is not visible in the AST dump of the instantiation',
             'empty sample lists: Eigen minCoeff/maxCoeff of an empty vector are undefined (the stubs return an arbitrary value)',
             'dataset_t::column2feature(column) has no range check at all (columns are not named by the property clause)'],
         'assumptions': [
+            'storage targets: feature_t::type() is one of the enumerators, classes() is in [0, 2^40], size(dims) is in [0, 2^40] (C16 proves nano::size); which enumerator a pool member stores (m_storage_u08 <-> uint8, ... by element type); the feature list, m_storage_type and m_storage_range are observed at two ghost features (other elements read as arbitrary values); unordered_map<feature_type, tensor_size_t>::operator[] value-initialises to 0; pool.resize(rows, samples) sets the dimensions',
+            'pairwise targets: tensor(sample) of a rank-4 value tensor is the component block of that sample (at least one component), observed at the stored sample behind the ghost row; process(ifeature) returns the operator checked in product_op_* and colsize 1; in the loop targets the double multiplication is uninterpreted (its arithmetic is decided in product_op_*)',
+            'generator targets: the permutation map is modelled over the keys [0, features) (operator[] inserts, find / iterator dereference, clear); arange(0, n) is a permutation of [0, n) and std::shuffle keeps it one; generator_t::NaN is a NaN; do_select / full are recorded by ghost variables',
             'indices.min() / indices.max() (Eigen minCoeff / maxCoeff): min <= a[g] and max >= a[g] at a ghost position g, arbitrary result for an empty list',
             'tensor_t::operator()(i) on rank-1 maps is p[i] (bounds become CBMC pointer checks); tensor_t::operator()(i, j) on the rank-2 feature mapping is the row-major element p[i*cols+j] with its index precondition checked at each use (C16 proves nano::index)',
             'tensor.size<k>() / size() return the k-th / only dimension; std::vector::operator[] is p[i] (bounds checked)',
@@ -737,38 +744,62 @@ _REPLAY = {}
 def replay(rp):
     """range-guard counterexamples (dataset_check_samples / dataset_guarded_read): the verifier's sample count N and the
     accepted list entry are replayed against a real in-memory datasource + dataset_t through the public API
-    (flatten / select); other targets have no native driver"""
+    (flatten / select).  Storage-dispatch, pairwise-product and drop/shuffle counterexamples run the matching scenario of
+    the same driver on the real library (class count taken from the counterexample where there is one)."""
     import replaylib
     out = {'reproduced': False, 'runs': []}
-    if rp['target'] not in ('dataset_check_samples', 'dataset_guarded_read'):
+    t = rp['target']
+    runs = []
+    if t in ('dataset_check_samples', 'dataset_guarded_read'):
+        cands = []
+        for fo in rp['failed_obligations']:
+            ce = fo.get('counterexample') or {}
+            n = None
+            idx = None
+            for k, v in ce.items():
+                if k.endswith('return_value_datasource_samples') or k.endswith('main::N'):
+                    n = v
+                if k.endswith('nv_w_index'):
+                    idx = v
+            try:
+                n, idx = int(str(n).rstrip('l')), int(str(idx).rstrip('l'))
+            except (TypeError, ValueError):
+                continue
+            if 0 <= n <= 2000000:
+                cands.append((n, idx))
+            elif idx == n:            # same input class at a size the driver can allocate: index == samples()
+                cands.append((16, 16))
+        if not cands:
+            cands = [(16, 16), (13, 13)]
+        runs = [[n, idx] for n, idx in dict.fromkeys(cands)]
+    elif t.startswith('datasource_storage'):
+        classes = []
+        for fo in rp['failed_obligations']:
+            for k, v in (fo.get('counterexample') or {}).items():
+                if k.endswith('nv_F1.m_classes') or k.endswith('nv_F2.m_classes'):
+                    try:
+                        c = int(str(v).rstrip('l'))
+                        if 2 <= c <= 70000:
+                            classes.append(c)
+                    except ValueError:
+                        pass
+        runs = [['storage', c] for c in dict.fromkeys(classes + [256, 65536])][:4]
+    elif t.startswith('product_op') or t.startswith('pairwise_'):
+        runs = [['product']]
+    elif t.startswith('gen_'):
+        runs = [['flags']]
+    else:
         out['note'] = 'no native driver for this target: the replay file carries the verifier output only'
         return out
-    cands = []
-    for fo in rp['failed_obligations']:
-        ce = fo.get('counterexample') or {}
-        n = None
-        idx = None
-        for k, v in ce.items():
-            if k.endswith('return_value_datasource_samples') or k.endswith('main::N'):
-                n = v
-            if k.endswith('nv_w_index'):
-                idx = v
-        try:
-            n, idx = int(str(n).rstrip('l')), int(str(idx).rstrip('l'))
-        except (TypeError, ValueError):
-            continue
-        if 0 <= n <= 2000000:
-            cands.append((n, idx))
-        elif idx == n:            # same input class at a size the driver can allocate: index == samples()
-            cands.append((16, 16))
-    if not cands:
-        cands = [(16, 16), (13, 13)]
-    if 'exe' not in _REPLAY:      # one build per run, shared by the replays of both range-guard targets
+    if 'exe' not in _REPLAY:      # one build per run, shared by all replays
         _REPLAY['exe'] = replaylib.build_with_library('replay/C08_replay.cpp', 'C08_replay')
     exe = _REPLAY['exe']
-    for n, idx in dict.fromkeys(cands):
-        rc, so, se = replaylib.run_driver(exe, [n, idx])
-        out['runs'].append({'samples': n, 'index': idx, 'exit': rc, 'output': so.strip()[:2000]})
+    for args in runs:
+        key = tuple(args)
+        if key not in _REPLAY:
+            _REPLAY[key] = replaylib.run_driver(exe, args)
+        rc, so, se = _REPLAY[key]
+        out['runs'].append({'args': args, 'exit': rc, 'output': so.strip()[:2000]})
         if rc == 1:
             out['reproduced'] = True
     return out
